@@ -213,6 +213,7 @@ func builtinStringReplace(call FunctionCall) Value {
 
 	// TODO If a capture is -1?
 	var search *regexp.Regexp
+	var literal [][]int
 	global := false
 	find := 1
 	if searchValue.IsObject() && searchObject.class == classRegExpName {
@@ -223,10 +224,22 @@ func builtinStringReplace(call FunctionCall) Value {
 			global = true
 		}
 	} else {
-		search = regexp.MustCompile(regexp.QuoteMeta(searchValue.string()))
+		text := searchValue.string()
+		var err error
+		if search, err = regexp.Compile(regexp.QuoteMeta(text)); err != nil {
+			// Not valid UTF-8 (a host string, half a character cut out by a
+			// byte offset): the search value is a plain string all the same.
+			search = nil
+			if at := bytes.Index(target, []byte(text)); at >= 0 {
+				literal = [][]int{{at, at + len(text)}}
+			}
+		}
 	}
 
-	found := search.FindAllSubmatchIndex(target, find)
+	found := literal
+	if search != nil {
+		found = search.FindAllSubmatchIndex(target, find)
+	}
 	if found == nil {
 		if searchValue.isRegExp() {
 			// ES5 15.5.4.11: the search is done as in match; a failing exec resets lastIndex.
